@@ -125,23 +125,46 @@ func (e *Exec) keccakTerm(arr, off, n *Term, max int) *Term {
 		e.ufs = append(e.ufs, ufRec{name: fmt.Sprintf("keccak_%d", k), args: args, res: t})
 		return t
 	}
-	if c, ok := n.ConstU64(); ok {
-		if c > 1024 {
-			panic(unsupported("keccak of more than 1024 concrete bytes"))
+	// inputs longer than one sponge block: a chain of uninterpreted absorb steps over 32-byte
+	// words (bytes past the length masked to zero), closed by a step that takes the length;
+	// congruent in content and length, linear in the bound
+	long := func() *Term {
+		if max > 4096 {
+			panic(unsupported(fmt.Sprintf("keccak with bound %d", max)))
 		}
-		return mk(int(c))
+		acc := tb.BVu(0, 256)
+		for w := 0; w*32 < max; w++ {
+			var word *Term
+			for k := 0; k < 32; k++ {
+				pos := tb.BVu(uint64(w*32+k), 64)
+				b := tb.Ite(tb.Cmp(OpUlt, pos, n), tb.Select(arr, tb.Bin(OpAdd, off, pos)), tb.BVu(0, 8))
+				if word == nil {
+					word = b
+				} else {
+					word = tb.Concat(word, b)
+				}
+			}
+			next := tb.UF("keccak_absorb", 256, acc, word)
+			acc = tb.Ite(tb.Cmp(OpUlt, tb.BVu(uint64(w*32), 64), n), next, acc)
+		}
+		return tb.UF("keccak_final", 256, acc, n)
+	}
+	if c, ok := n.ConstU64(); ok {
+		if c <= 136 {
+			return mk(int(c))
+		}
+		return long()
+	}
+	short := max
+	if short > 136 {
+		short = 136
+	}
+	r := mk(short)
+	for k := short - 1; k >= 0; k-- {
+		r = tb.Ite(tb.Eq(n, tb.BVu(uint64(k), 64)), mk(k), r)
 	}
 	if max > 136 {
-		// long inputs: case-split the length instead of building one term per length
-		c := e.concretize(n, "keccak input length")
-		if c > 1024 {
-			panic(unsupported(fmt.Sprintf("keccak of %d bytes", c)))
-		}
-		return mk(int(c))
-	}
-	r := mk(max)
-	for k := max - 1; k >= 0; k-- {
-		r = tb.Ite(tb.Eq(n, tb.BVu(uint64(k), 64)), mk(k), r)
+		r = tb.Ite(tb.Cmp(OpUle, n, tb.BVu(136, 64)), r, long())
 	}
 	return r
 }
